@@ -220,6 +220,25 @@ func (r *Runner) addrDerived(hash []byte, tag string) {
 			s = base58check.Encode(append([]byte{0, 0, v}, hash...))
 			all(s, tag+"-zero-padded-version", "")
 		}
+		// a '1' (the zero digit) inside the string replaced by characters that are not Base58 digits at all
+		for _, v := range []uint16{0, 5, 111, 48, 0x1cb8} {
+			s := base58check.EncodeVersion(hash, v)
+			lead := 0
+			for lead < len(s) && s[lead] == '1' {
+				lead++
+			}
+			done := 0
+			for i := lead; i < len(s) && done < 2; i++ {
+				if s[i] != '1' {
+					continue
+				}
+				done++
+				for _, c := range []byte("0OIl+/ _\x00\x7f\xb1") {
+					all(s[:i]+string([]byte{c})+s[i+1:], tag+"-b58-zero-digit-replaced", fmt.Sprintf("position %d: %q for '1'", i, c))
+					r.Do("addr.dec58", []string{sx(s[:i] + string([]byte{c}) + s[i+1:])}, tag+"-dec58", true, "")
+				}
+			}
+		}
 		// payload lengthening / shortening
 		for _, v := range []byte{0, 5, 111, 50} {
 			for _, n := range []int{0, 1, 18, 19, 21, 22, 23, 32} {
